@@ -248,8 +248,23 @@ def part_attrs(ctx, shard):
     from unyt.unit_systems import add_symbols
 
     add_symbols(ns, reg)
+    # a registry whose built-in symbols were redefined: its namespace must follow ITS table, not the default one
+    reg2 = UnitRegistry()
+    for sym_, val_ in (("pc", 3.0e16), ("Msun", 2.0e30), ("yr", 3.0e7), ("eV", 1.5e-19), ("Hz", 2.0), ("lb", 0.5)):
+        reg2.modify(sym_, val_)
+    ns2 = {}
+    add_symbols(ns2, reg2)
     top = vars(unyt)
     for name in shard:
+        n2 = ns2.get(name)
+        if n2 is not None:
+            ctx.count("evaluations")
+            r2 = real(name, registry=reg2)
+            nn2 = ("ok", float(n2.base_value), dim_of(n2.dimensions), float(n2.base_offset), str(n2.expr))
+            if r2[0] == "ok" and (r2[2:4] != nn2[2:4] or abs(r2[1] - nn2[1]) > 1e-12 * abs(r2[1])):
+                ctx.violation(f"C14|attr|sym={_canon_sym(exposed_names().get(name, name))}|mode=edited-registry-string-differs-from-its-namespace", {"part": "attrs", "name": name}, r2, nn2)
+            if n2.registry is not reg2:
+                ctx.violation(f"C14|attr|sym={_canon_sym(exposed_names().get(name, name))}|mode=namespace-unit-bound-to-other-registry", {"part": "attrs", "name": name}, "reg2", None)
         ctx.count("evaluations")
         ctx.count("transitions", 3)
         attr = getattr(usym, name)
